@@ -41,6 +41,7 @@ fn dispatch(req: &Req) -> R<String> {
 		"statd" => stat::statd(req),
 		"zstat" => stat::zstat(req),
 		"zfind" => stat::zfind(req),
+		"seedfind" => stat::seedfind(req),
 		"chacha" => chacha::chacha(req),
 		"slpblock" => chacha::slpblock(req),
 		"serde" => serde_rt::serde(req),
